@@ -109,6 +109,16 @@ void h_table(void)
   g_exc = EXC_NONE; g_exc_by_pointer = 0;
   opus_volume_table(c, s, g);
 }
+/* OpusDiscCatalogue::map_sectors (C14): on an Opus DDOS disc sector 16 (the disc catalogue) and sector 17 (reserved, the last
+   sector of track 0) belong to no volume and are labelled as such -- those two and no other */
+static struct { unsigned calls; unsigned long first, second; } AO;
+static void add_other_model(unsigned long sector) { if (AO.calls == 0) AO.first = sector; else AO.second = sector; if (AO.calls < 1000) AO.calls++; }
+#include "opus_disc_map_sectors.inc"
+static void opus_disc_map_sectors(const struct OpusCatM *self)
+__CPROVER_requires(__CPROVER_is_fresh(self, sizeof(*self)) && AO.calls == 0)
+__CPROVER_assigns(AO)
+__CPROVER_ensures(AO.calls == 2 && AO.first == 16 && AO.second == 17);
+void h_disc_map(void) { const struct OpusCatM *c; AO.calls = 0; opus_disc_map_sectors(c); }
 void h_set_next(void) { struct VolumeLocation *v; VolumeLocation_set_next_sector(v, nondet_ulong()); }
 void h_len(void) { struct VolumeLocation *v; VolumeLocation_len(v); }
 void h_start(void) { struct VolumeLocation *v; VolumeLocation_start_sector(v); }
